@@ -1279,7 +1279,7 @@ func run(seed int64, n int, dir string, _ []string) {
 		}
 		e := newEnc()
 		plan := strings.Join(e.query(q), " ")
-		op := fmt.Sprintf("c03.q %d %s %s", cpu, e.header(), plan)
+		op := fmt.Sprintf("c03.q %d %s %s #%s", cpu, e.header(), plan, hc.Hex(sql))
 		o.Case(op, canon(v))
 		shape := queryShape(q, o, 0)
 		if q.tag != "" {
